@@ -129,7 +129,10 @@ func (v *naVal) render(sb *strings.Builder) naExp {
 var naDisplays = []string{"", "Bob", "Bob Smith", "\"q\"", "\"a \\\" , ; < b\""}
 var naURIs = []string{"sip:a@b", "sip:h:5060", "tel:1"}
 var naParamMenu = []naParam{{"tag", "T", true}, {"TAG", "T2", true}, {"expires", "7", true}, {"q", "0.5", true}, {"lr", "", false}, {"x", "", false}, {"x", "y", true}, {"x", "\"q;,\"", true}}
-var naLWS = []string{" ", "\r\n "}
+var naLWS = []string{" ", "\r\n ", "\t"}
+
+// further LWS forms used by the thorough tier (lone-LF / lone-CR folds, CRLF HT)
+var naLWSMore = []string{"\n ", "\r\t", "\r\n\t", "  "}
 
 func naParamLists(maxn int) [][]naParam {
 	var out [][]naParam
@@ -515,6 +518,10 @@ func evalC09(cs *c09Case) (vs []*Violation) {
 func checkC09(r *Run) {
 	r.Assume = []string{"Name and Params are compared after trimming trailing LWS (documented leniency of the library)", "LWS is never generated after '=' of an empty value",
 		"MinExpires asserted only when every value carries expires (the statement does not define the contribution of a value without it)"}
+	if !r.quick() {
+		naLWS = append(naLWS, naLWSMore...)
+		defer func() { naLWS = naLWS[:3] }()
+	}
 	shapes := naShapes()
 	plists := naParamLists(r.pick(2, 3))
 	maxGaps := r.pick(2, 2)
